@@ -18,7 +18,7 @@
     hdrfields  Profile ShowExisting Idx NonKey ShowFrame ErrRes opt(T BitDepth CS CR SX SY) opt(w-1 h-1) Width() Height()
     c12.hdr    opt(hdrdesc) wire               => res(hdrfields)
     c12.dec    vp9desc payload k wire          => res(bytes) vp9md head resZ(bytes)
-    c12.rt     flex init <n> (mtu obytes opt(hdrdesc))*  => <n> (<m> (bytes res(bytes) vp9md head resZ(bytes))*)*
+    c12.rt     init <n> (flex mtu obytes opt(hdrdesc))*  => <n> (<m> (bytes res(bytes) vp9md head resZ(bytes))*)*
     c08.vp9    flex init calls                 => <n> PayObs*
     c09.vp9    <n> obytes*                     => <n> (depobs vp9md)*
 -/
@@ -246,13 +246,13 @@ theorem c12DecR_of_dec (d : Spec.Vp9Rtp.Descriptor) (p : Bytes) (k : Nat) (w : B
     C12.dec d p k w o = true → c12DecR d p k w o = true := by
   intro h; simp [c12DecR, h]
 
-/-- `C12.rt` on the observation with every `head` replaced by the packet's B bit (what `C12.marks`
-    compares it with) -/
-def c12RtR (f : Bool) (i : UInt16) (cs : List C12.Call) (o : List (List C12.FragObs)) : Bool :=
-  C12.rt f i cs o || C12.rt f i cs (o.map (·.map (fun fr => { fr with head := fr.md.B })))
+/-- `C12.rtFlip` (the round-trip predicate with `FlexibleMode` per call) on the observation with
+    every `head` replaced by the packet's B bit (what `C12.marks` compares it with) -/
+def c12RtR (i : UInt16) (cs : List (Bool × C12.Call)) (o : List (List C12.FragObs)) : Bool :=
+  C12.rtFlip i cs o || C12.rtFlip i cs (o.map (·.map (fun fr => { fr with head := fr.md.B })))
 
-theorem c12RtR_of_rt (f : Bool) (i : UInt16) (cs : List C12.Call) (o : List (List C12.FragObs)) :
-    C12.rt f i cs o = true → c12RtR f i cs o = true := by
+theorem c12RtR_of_rt (i : UInt16) (cs : List (Bool × C12.Call)) (o : List (List C12.FragObs)) :
+    C12.rtFlip i cs o = true → c12RtR i cs o = true := by
   intro h; simp [c12RtR, h]
 
 /-- with the result of the `SetZeroAllocation(true)` receiver (see `c11DecZ`) -/
@@ -280,6 +280,11 @@ def rdVP9Call : Rd C12.Call := do
   let m ← Rd.u16; let b ← Rd.obytes; let d ← Rd.opt rdHdrDesc
   pure { mtu := m, frame := b, desc := d }
 
+/-- a call with the value `FlexibleMode` has when it is made -/
+def rdVP9FCall : Rd (Bool × C12.Call) := do
+  let f ← Rd.bool; let c ← rdVP9Call
+  pure (f, c)
+
 def c12Plain (o : List (List (C12.FragObs × Res Bytes))) : List (List C12.FragObs) := o.map (·.map (·.1))
 def c12Zero (o : List (List (C12.FragObs × Res Bytes))) : List (List C12.FragObs) :=
   o.map (·.map (fun fz => { fz.1 with res := fz.2 }))
@@ -288,25 +293,28 @@ def c12Pair (o : List (List C12.FragObs)) : List (List (C12.FragObs × Res Bytes
 
 /-- `c12RtR` on the ordinary receiver's observation and on the one whose results are those of the
     `SetZeroAllocation(true)` receiver (see `c11DecZ`) -/
-def c12RtZ (f : Bool) (i : UInt16) (cs : List C12.Call) (o : List (List (C12.FragObs × Res Bytes))) : Bool :=
-  c12RtR f i cs (c12Plain o) && c12RtR f i cs (c12Zero o)
+def c12RtZ (i : UInt16) (cs : List (Bool × C12.Call)) (o : List (List (C12.FragObs × Res Bytes))) : Bool :=
+  c12RtR i cs (c12Plain o) && c12RtR i cs (c12Zero o)
 
-theorem c12RtZ_of_rtR (f : Bool) (i : UInt16) (cs : List C12.Call) (o : List (List C12.FragObs)) :
-    c12RtR f i cs o = true → c12RtZ f i cs (c12Pair o) = true := by
+theorem c12RtZ_of_rtR (i : UInt16) (cs : List (Bool × C12.Call)) (o : List (List C12.FragObs)) :
+    c12RtR i cs o = true → c12RtZ i cs (c12Pair o) = true := by
   intro h
   have h1 : c12Plain (c12Pair o) = o := by simp [c12Plain, c12Pair, Function.comp_def]
   have h2 : c12Zero (c12Pair o) = o := by simp [c12Zero, c12Pair, Function.comp_def]
   simp [c12RtZ, h1, h2, h]
 
+/-- `init <n> (flex mtu frame opt(hdrdesc))*`: `FlexibleMode` is an exported field, the harness sets
+    it before every call (in most histories to one value throughout, in a share of them to a value
+    that changes between frames); model and predicate take it per call (`c12_rt_flip`). -/
 def c12Rt : Handler :=
   mkHandler
-    (do let f ← Rd.bool; let i ← Rd.u16; let cs ← Rd.list rdVP9Call; pure (f, i, cs))
+    (do let i ← Rd.u16; let cs ← Rd.list rdVP9FCall; pure (i, cs))
     (Rd.list (Rd.list (do let fr ← rdVP9Frag; let rz ← Rd.resC Rd.bytes; pure (fr, rz))))
-    (fun (f, i, cs) => c12Pair (C12.obsRt f i cs))
-    (fun (f, i, cs) o => c12RtZ f i cs o)
+    (fun (i, cs) => c12Pair (C12.obsRtFlip i cs))
+    (fun (i, cs) o => c12RtZ i cs o)
     -- every call of the history is inside the property's domain ("sufficient MTU", a frame with a
     -- well-formed header): what a call outside it does to the running picture id is not claimed
-    (fun (f, _, cs) => cs.all (C12.proper f))
+    (fun (_, cs) => cs.all (fun fc => C12.proper fc.1 fc.2))
 
 def c08Vp9 : Handler :=
   mkHandler (do let f ← Rd.bool; let i ← Rd.u16; let cs ← rdCalls; pure (f, i, cs)) rdPayObsList
